@@ -17,7 +17,7 @@ rescale_hooks.install()
 
 ID = "C23"
 N = {"quick": 70, "thorough": 5000}
-BUDGET = {"quick": 240.0, "thorough": 1500.0}
+BUDGET = {"quick": 240.0, "thorough": 700.0}
 RULE = ("case = (diploid simulation or tsinfer inference with 5-200 singletons, some exactly on tree "
         "breakpoints, singletons_phased=False, match_segregating_sites on/off, rescaling settings); "
         "distinct by (topology hash, options); non-trivial = >=1 unphased singleton entered the rescaling")
